@@ -86,6 +86,9 @@ def compare(tag, x1, x2, stats, obs_map=None):
             for k in ("stdev", "qrr", "f", "std-residual", "err-obs", "err-adj"):
                 if a.get(k) is None or b.get(k) is None:
                     continue        # (err-obs / err-adj are written only for clusters whose declared band is 0)
+                if k in ("std-residual", "err-obs", "err-adj") and (min(a.get("f") or 0.0, b.get("f") or 0.0) < 1.0
+                                                                   or min(S1["sum_of_squares"], S2["sum_of_squares"]) < 1e-9):
+                    continue        # an (almost) uncontrolled observation, or residuals that are all rounding noise: 0/0
                 if abs(a[k] - b[k]) > 2e-3 * max(abs(a[k]), abs(b[k])) + 2e-3:
                     bad = "%s %.6g vs %.6g" % (k, a[k], b[k])
             if bad:
